@@ -127,7 +127,7 @@ pub fn run(opts: &Opts, pi: &PropInfo) -> i32 {
             vec![rj["universe"].as_str().unwrap_or("fixed").to_string()]
         }
     } else {
-        let mut v = vec!["fixed".to_string(), "extra".to_string(), format!("s{}", opts.seed)];
+        let mut v = vec!["fixed".to_string(), "extra".to_string(), "zst".to_string(), format!("s{}", opts.seed)];
         if opts.tier == "thorough" {
             for k in 1..16 {
                 v.push(format!("s{}k{}", opts.seed, k));
